@@ -3,9 +3,9 @@ from props.common import *
 # ------------------------------------------------------------------ C13
 def strict_opts(p):
     """Independent strict reading of a query of the property's shape: header, ONE question with
-    uncompressed ordinary labels, no answers/authorities, ARCOUNT-1 non-OPT additional records with
-    uncompressed owners, then an OPT RR with root owner whose options tile its RDATA and which ends
-    the message.  Returns [(offset of OPTION-CODE, code, data length)] or None."""
+    uncompressed ordinary labels, no answers/authorities, ARCOUNT additional records with uncompressed owners of which exactly
+    one is an OPT RR, with root owner, whose options tile its RDATA (other records - a TSIG, say - may stand before AND after
+    it), the last record ending the message.  Returns [(offset of OPTION-CODE, code, data length)] or None."""
     try:
         if len(p) < 12:
             return None
@@ -29,20 +29,20 @@ def strict_opts(p):
         if off is None:
             return None
         off += 4
+        opts = None
         for k in range(ar):
-            last = k == ar - 1
             o = name(off)
             if o is None or o + 10 > len(p):
                 return None
             typ = int.from_bytes(p[o:o + 2], "big")
             rdlen = int.from_bytes(p[o + 8:o + 10], "big")
-            if (typ == 41) != last:
-                return None
-            if last:
+            if typ == 41:
+                if opts is not None:
+                    return None          # a second OPT record: not a well-formed query
                 if o != off + 1:
                     return None          # OPT owner must be the root
                 cur, end = o + 10, o + 10 + rdlen
-                if end != len(p):
+                if end > len(p):
                     return None
                 opts = []
                 while cur < end:
@@ -54,10 +54,12 @@ def strict_opts(p):
                         return None
                     opts.append((cur, code, dl))
                     cur += 4 + dl
-                return opts
             off = o + 10 + rdlen
             if off > len(p):
                 return None
+        if opts is None or off != len(p):
+            return None
+        return opts
         return None
     except IndexError:
         return None
